@@ -111,6 +111,7 @@ def check(ctx):
     from ..rules.forwarding import check_forwarding
     check_forwarding(ctx, {'bootstrap_iteration', 'n_assignments'})
     check_runners_up_as_requested(ctx)
+    check_correlation_inheritance_order(ctx)
     from ..rules.idioms import check_falsy_numeric_default
     for fi_ in ctx.db.iter_functions():
         if fi_.module.short in ('cli.from_specified_markers',
@@ -640,3 +641,76 @@ def check_runners_up_as_requested(ctx, rule='R-PROV/runners-up-as-requested'):
     if n == 0:
         raise AnalysisError('_run_mapping: no call with n_assignments '
                             'found')
+
+
+def check_correlation_inheritance_order(
+        ctx, rule='R-ORDER/correlation-inheritance'):
+    """a level at which no vote was held reports the correlation of the
+    level *above* it (where the choice that fixed it was made); only
+    levels with nothing above them that was voted on take the value of the
+    nearest level below.  The per-cell back-fill therefore runs the
+    downward pass (parent -> child over zip(h[:-1], h[1:])) before the
+    upward pass (child -> parent over the reversed hierarchy): run the
+    other way round, a single-child level in the middle of the tree is
+    filled from below and the downward pass finds nothing left to do."""
+    db = ctx.db
+    fi = db.fn('type_assignment.election:run_type_assignment')
+    ctx.touch(fi)
+    ex = Expander(fi)
+    cfg = cfg_of(fi)
+    rd = rd_of(fi)
+    passes = []
+    for lp in ast.walk(fi.node):
+        if not (isinstance(lp, ast.For) and isinstance(lp.iter, ast.Call)
+                and getattr(lp.iter.func, 'id', None) == 'zip'
+                and len(lp.iter.args) == 2 and isinstance(
+                    lp.target, ast.Tuple) and len(lp.target.elts) == 2
+                and all(isinstance(e, ast.Name) for e in lp.target.elts)):
+            continue
+        stores = [st for st in ast.walk(lp) if isinstance(st, ast.Assign)
+                  and isinstance(st.targets[0], ast.Subscript)
+                  and isinstance(st.targets[0].slice, ast.Constant)
+                  and st.targets[0].slice.value == 'avg_correlation'
+                  and any(isinstance(x, ast.Subscript) and isinstance(
+                      x.slice, ast.Constant)
+                      and x.slice.value == 'avg_correlation'
+                      for x in ast.walk(st.value))]
+        if not stores:
+            continue
+        st = stores[0]
+        into = {x.id for x in ast.walk(st.targets[0])
+                if isinstance(x, ast.Name)}
+        v0, v1 = (e.id for e in lp.target.elts)
+        # which sequence is walked: the hierarchy or its reverse?
+        ns = [x for x in cfg.nodes_of(lp) if x.kind == 'for'
+              and x.id in rd.live]
+        if not ns:
+            continue
+        t0 = ex.expand(lp.iter.args[0], ns[0].id)
+        rev = any(isinstance(x, tuple) and x and x[0] == 'slice'
+                  and x[3] not in (('const', 'None'), None)
+                  for x in T.subterms(t0)) or any(
+            T.call_name(x) in ('reversed',) for x in T.subterms(t0)
+            if isinstance(x, tuple) and x and x[0] == 'call')
+        # zip(s[:-1], s[1:]): element 0 comes first in s
+        first_is_upper = not rev
+        if v1 in into:
+            direction = 'down' if first_is_upper else 'up'
+        elif v0 in into:
+            direction = 'up' if first_is_upper else 'down'
+        else:
+            continue
+        passes.append((lp.lineno, direction, lp))
+    passes.sort(key=lambda p_: p_[0])
+    dirs = [d for (_l, d, _n) in passes]
+    if len(passes) < 2 or set(dirs) != {'down', 'up'}:
+        raise AnalysisError('run_type_assignment: the downward and upward '
+                            f'inheritance passes were not recognised ({dirs})')
+    ok = dirs.index('down') < dirs.index('up')
+    ctx.ob(rule, 'run_type_assignment:passes', fi.loc(passes[0][2]), ok,
+           'the parent -> child pass runs before the child -> parent pass'
+           if ok else
+           'the child -> parent inheritance of avg_correlation runs before '
+           'the parent -> child pass: a single-child level below a level '
+           'that was voted on reports the correlation of the level below '
+           'it, not of the level where its assignment was decided')
